@@ -198,7 +198,11 @@ def kf_matches(entry, sig, detail):
         return False
     if "sig_prefix" in m and not sig.startswith(m["sig_prefix"]):
         return False
-    if "sig" not in m and "sig_prefix" not in m:
+    if "sig_regex" in m:
+        import re
+        if not re.search(m["sig_regex"], sig):
+            return False
+    if "sig" not in m and "sig_prefix" not in m and "sig_regex" not in m:
         return False
     where = m.get("where")
     if where:
